@@ -248,6 +248,12 @@ impl CommandParser {
                     format!("({})", types.join(", "))
                 }
             }
+            Type::Array(type_array) => {
+                format!("[{}; _]", Self::type_to_string(&type_array.elem))
+            }
+            Type::Slice(type_slice) => {
+                format!("[{}]", Self::type_to_string(&type_slice.elem))
+            }
             _ => "unknown".to_string(),
         }
     }
